@@ -216,9 +216,22 @@ def r4(ctx, cfg):
 
         def carries(name, how):
             return contains(ret, how)
-        msgs = contains(ret, lambda x: x[0] == "call" and x[1].endswith("Response::add_submessages") and contains(
-            x[2][1], lambda y: y[0] == "call" and y[1] == "std::iter::Iterator::map" and contains(y[2][0], lambda z: is_param_field(z, "resp", "messages"))
-            and peel(y[2][1]) == ("fn", "contracts::customize_msg")))
+        # every sub-message of the response goes through customize_msg, none dropped, in order - whether written as
+        # `.into_iter().map(customize_msg)` or as a loop pushing `customize_msg(m)` (vlib/pipeline.py)
+        from vlib import pipeline
+        msgs = False
+        for g0 in [f]:
+            for b0, t0 in g0.calls():
+                if t0["callee"]["key"].endswith("Response::add_submessages"):
+                    cs = pipeline.iter_contribs(P, F, g0, P.call_args(g0, t0, b0)[1])
+                    if len(cs) == 1 and cs[0].kind == "expr" and not cs[0].conds and not cs[0].adapters and is_param_field(cs[0].src, "resp", "messages"):
+                        e0 = peel(cs[0].expr)
+                        msgs = e0[0] == "call" and e0[1] == "contracts::customize_msg" and peel(e0[2][0])[0] == "bound"
+                    elif len(cs) == 1 and cs[0].kind == "opaque":
+                        # `.map(customize_msg)` with the function passed by path: not a closure the pipeline reader can open
+                        a1 = peel(P.call_args(g0, t0, b0)[1])
+                        msgs = a1[0] == "call" and a1[1] == "std::iter::Iterator::map" and is_param_field(a1[2][0], "resp", "messages") and \
+                            peel(a1[2][1]) == ("fn", "contracts::customize_msg")
         evs = contains(ret, lambda x: x[0] == "call" and x[1].endswith("Response::add_events") and is_param_field(x[2][1], "resp", "events"))
         attrs = contains(ret, lambda x: x[0] == "call" and x[1].endswith("Response::add_attributes") and is_param_field(x[2][1], "resp", "attributes"))
         r0 = ret
